@@ -1,5 +1,6 @@
 """Property-specific stages: regenerated source facts (C15-C18), forbid(unsafe_code) compile check
 (C16), Miri cross-target runs (C17, C03), allocation counting (C18)."""
+import shutil
 import json, os, random, re, shutil
 import hh, gen, props as P, theorems as T
 from gen import B, rkey, rbytes, kstr, split_chunks
@@ -258,19 +259,35 @@ def special_c16(res, tier, seed, workdir, stats):
     if getattr(res, "facts", None) and not any(f["file"] == "lib.rs" and f["kind"] == "lint" and re.match(r"^inner (deny|forbid)\(unsafe_code\)$", f["detail"]) for f in res.facts):
         res.replay(dict(kind="impl-violates-property", message="src/lib.rs no longer carries #![deny(unsafe_code)]"))
         res.n_oracle_fail += 1
-    # supporting compile check
-    cdir = os.path.join(hh.ROOT, "harness", "forbid")
+    # supporting compile check: the files of the portable closure, included by #[path] into a crate with
+    # #![forbid(unsafe_code)] (generated under .build from harness/forbid, one `mod` per top-level closure file)
+    src_dir = os.path.realpath(os.path.join(hh.REPO, "src"))
+    gdir = os.path.join(hh.BUILD, "forbid-gen")
+    os.makedirs(os.path.join(gdir, "src"), exist_ok=True)
+    shutil.copy(os.path.join(hh.ROOT, "harness", "forbid", "Cargo.toml"), os.path.join(gdir, "Cargo.toml"))
+    base = open(os.path.join(hh.ROOT, "harness", "forbid", "src", "lib.rs")).read().replace("../../../.build/repo/src", src_dir)
+    extra = []
+    if getattr(res, "facts", None):
+        std_mods = {"macros", "internal", "key", "portable", "traits", "hash", "lib", "builder"}
+        tops = sorted({f.split("/")[0].replace(".rs", "") for f in clo} - std_mods)
+        for m in tops:
+            pth = os.path.join(src_dir, m + ".rs") if os.path.exists(os.path.join(src_dir, m + ".rs")) else os.path.join(src_dir, m, "mod.rs")
+            extra.append(f'#[path = "{pth}"]\nmod {m};\n')
+    open(os.path.join(gdir, "src", "lib.rs"), "w").write(base + "\n" + "".join(extra))
     n = 0
     for feat in ([], ["--no-default-features"]):
-        rc, out, err = hh.sh(["cargo", "build", "--offline", "-q"] + feat, cwd=cdir, env={"CARGO_TARGET_DIR": os.path.join(hh.BUILD, "t-forbid")}, timeout=1800)
+        rc, out, err = hh.sh(["cargo", "build", "--offline", "-q"] + feat, cwd=gdir, env={"CARGO_TARGET_DIR": os.path.join(hh.BUILD, "t-forbid")}, timeout=1800)
         n += 1
         if rc != 0:
             txt = out + err
-            if "unsafe" in txt or "E0453" in txt:
+            if "unsafe" in txt or "E0453" in txt or "E0133" in txt:
                 res.replay(dict(kind="impl-violates-property", message="portable-path sources do not compile under #![forbid(unsafe_code)] " + " ".join(feat), compiler=txt[-2500:]))
                 res.n_oracle_fail += 1
             else:
-                res.corr_pending.append(dict(kind="correspondence-broken", stream="forbid-crate build (portable files no longer compile standalone)", detail=txt[-1500:]))
+                # the stand-alone crate no longer builds for a reason unrelated to unsafe code (e.g. a new crate-root
+                # item the stand-in does not provide): the auxiliary compile check is not applicable to this tree; the
+                # kernel-decided theorems over the regenerated facts remain the deciding part
+                res.notes.append("forbid(unsafe_code) compile check not executed: the stand-alone crate does not build for a reason unrelated to unsafe code: " + txt[-300:].replace("\n", " "))
     res.evals += n
     res.cov["forbid_builds"] = n
     if getattr(res, "facts", None):
@@ -316,11 +333,37 @@ def gen_c17(r, tier, info):
     # arbitrary checkpoints incl. large counts (u32 -> usize conversion)
     for c in (0, 31, 32, 255, 65536, 2**31, 2**32 - 1):
         cases.append(gen.malformed(r, ["portable"], count=c))
+    # restore from arbitrary bytes with count fields around every power-of-two boundary of a 32-bit usize (offset
+    # arithmetic such as `128 + len` overflows only there), followed by a continuation
+    for c in (2**32 - 1, 2**32 - 2, 2**32 - 128, 2**32 - 129, 2**31, 2**31 - 1, 65536, 65535, 255, 256, 31, 32):
+        cases.append(gen.malformed(r, ["portable", "auto"], count=c))
     return cases
+
+
+WIDTH_CASTS_KNOWN = ("self.buffer.len() as u32", "len as usize")
+
+
+def new_width_casts(facts):
+    """integer casts of non-test portable code whose result can depend on the pointer width (a cast to usize/isize,
+    or a narrowing cast of a length) and that are not the two the pinned tree has.  Whether such a cast is harmful
+    depends on value ranges no lexical rule can know, so this is NOT a theorem and never an alarm: it makes the
+    32-bit stages of this check run their thorough generators (advisory escalation)."""
+    out = []
+    for f in facts or []:
+        if f["file"] in PORTABLE_FILES and f["kind"] == "cast" and not f["test"]:
+            d = f["detail"]
+            if re.search(r" as (u64|u128|i128)$", d):
+                continue
+            if ("usize" in d or "isize" in d or "len()" in d) and d not in WIDTH_CASTS_KNOWN:
+                out.append(span(f))
+    return out
 
 
 def special_c17(res, tier, seed, workdir, stats):
     facts_judge(res, "C17", c17_concrete)
+    esc = new_width_casts(getattr(res, "facts", None))
+    if esc:
+        res.notes.append(f"{len(esc)} pointer-width-sensitive cast(s) not present in the pinned tree: the 32-bit stages run their thorough generators: {esc[:4]}")
     targets = ["s390x", "powerpc", "i686"]
     per_target = {}
     native_outs = {}
@@ -346,7 +389,8 @@ def special_c17(res, tier, seed, workdir, stats):
             return outs, crashed
         # the model is target independent: the cfg line only selects `other`/std
         info0 = {"arch": "other", "std": "1", "_line": "cfg arch=other std=1 tf_sse41=0 tf_avx2=0 simd128=0 cpu_sse41=0 cpu_avx2=0"}
-        st = check_mod().run_config(res, "C17", tier, seed, f"miri-{tkey}", None, info0, workdir, gen_override=gen_c17, executor=ex, label="c17-fixed")
+        t_tier = "thorough" if (esc and tkey in ("powerpc", "i686")) else tier
+        st = check_mod().run_config(res, "C17", t_tier, seed, f"miri-{tkey}", None, info0, workdir, gen_override=gen_c17, executor=ex, label="c17-fixed")
         st["target_info"] = (holder.get("info") or {}).get("_line")
         if holder.get("info") is None:
             # interpreter/sysroot unavailable: recorded, never an alarm
